@@ -106,7 +106,7 @@ FAULT_OBJECTS_QUICK = ["parms", "plain0", "ct_fresh_compact", "ct_seeded_compact
 
 def check_c15(rep):
     quick = rep.tier == "quick"
-    psets = ["bgv_8_17_8,60,16"] if quick else ["bgv_8_17_20,60,30", "bfv_8_17_8,60,40", "ckks_8_0_30,60,30"]
+    psets = ["bgv_8_17_8,60,16"] if quick else ["bgv_8_17_20,60,30", "ckks_8_0_30,60,30"]
     rep.cov["rule"] = ("fault scripts = (object, per-call acceptance limits for the first calls, index of the failing write call) enumerated by TLC over "
                        "SerializeFaults.tla, which also computes the outcome of the write_all design (result, bytes on the sink); plus every truncation offset "
                        "0..len of every object's encoding; each script is executed against the real serializer / deserializer; distinct = distinct scripts")
@@ -123,7 +123,7 @@ def check_c15(rep):
         else:
             caps = [[]] + [[c] for c in range(1, 9)] + [[a, b] for a in (1, 2, 3, 5, 8) for b in (1, 3, 7)] + [[1, 1, 1], [2, 1, 4], [7, 7, 7, 7]]
         mc.append("CapSets == {" + ", ".join(tla_lit(c) for c in caps) + "}")
-        mc.append("FailSet(nf) == {0} \\cup {k \\in 1..(nf + 8) : k <= %d \\/ k %% %d = 0 \\/ k >= nf - 2}" % ((10, 17) if quick else (14, 3)))
+        mc.append("FailSet(nf) == {0} \\cup {k \\in 1..(nf + 8) : k <= %d \\/ k %% %d = 0 \\/ k >= nf - 2}" % ((10, 17) if quick else (14, 5)))
         mc.append("VARIABLE oi")
         mc.append("MCInit == \\E i \\in 1..Len(Shapes), c \\in CapSets : \\E f \\in FailSet(Len(Layout(Shapes[i]))) :")
         mc.append("   /\\ oi = i /\\ fields = Layout(Shapes[i]) /\\ caps = c /\\ failAt = f")
@@ -134,6 +134,12 @@ def check_c15(rep):
         mc.append("EmitTrunc == \\A i \\in 1..Len(Shapes) : PrintT(<<\"K\", ToJson([name |-> Names[i], size |-> Size(Shapes[i])])>>)")
         mc.append("====")
         open(os.path.join(wd, "MC_Faults.tla"), "w").write("\n".join(mc) + "\n")
+        # the same machine over two objects only, for refuting the single-write deviation (a sanity run that need not scale)
+        small = [l for l in mc]
+        small[0] = "---- MODULE MC_FaultsSmall ----"
+        small[2] = "Shapes == " + tla_lit([e["shape"] for e in objs[:2]])
+        small[3] = "Names == " + tla_lit([e["name"] for e in objs[:2]])
+        open(os.path.join(wd, "MC_FaultsSmall.tla"), "w").write("\n".join(small) + "\n")
         cfg = os.path.join(wd, "MC_Faults.cfg")
         open(cfg, "w").write("INIT MCInit\nNEXT MCNext\nCONSTANT WAll = TRUE\nINVARIANTS OkMeansComplete ClaimTruthful Emit\nCHECK_DEADLOCK FALSE\n")
         scripts = []
@@ -152,7 +158,7 @@ def check_c15(rep):
         # the defect model (one write per field, count ignored) must be refuted by TLC: the specification can express the failure
         cfg2 = os.path.join(wd, "MC_Faults_defect.cfg")
         open(cfg2, "w").write("INIT MCInit\nNEXT MCNext\nCONSTANT WAll = FALSE\nINVARIANTS OkMeansComplete\nCHECK_DEADLOCK FALSE\n")
-        r2 = run_tlc("MC_Faults", cfg2, wd, workers=8, timeout=600)
+        r2 = run_tlc("MC_FaultsSmall", cfg2, wd, workers=4, timeout=600)
         rep.cov["defect_model_refuted_by_tlc"] = r2["violated"] == "OkMeansComplete"
         if r2["violated"] != "OkMeansComplete":
             raise ToolError("sanity: the single-write deviation should violate OkMeansComplete in the model")
@@ -196,13 +202,14 @@ REGISTRY.update({
 # --------------------------------------------------------------------------------------------------
 # C17 concurrency
 # --------------------------------------------------------------------------------------------------
-def tlc_behaviours(module, mcname, wd, consts_defs, cfg_lines, tag="B", workers=4, timeout=900):
-    """Runs TLC on a generated MC module that prints one <<"B", json>> line per complete behaviour."""
+def tlc_behaviours(module, mcname, wd, consts_defs, cfg_lines, tag="B", workers=4, timeout=900, simulate=None, depth=None, seed=None):
+    """Runs TLC on a generated MC module that prints one <<"B", json>> line per complete behaviour
+    (exhaustively, or `simulate` random behaviours of at most `depth` steps)."""
     open(os.path.join(wd, mcname + ".tla"), "w").write("---- MODULE %s ----\nEXTENDS %s, Json\n%s\n====\n" % (mcname, module, consts_defs))
     cfg = os.path.join(wd, mcname + ".cfg")
     open(cfg, "w").write("\n".join(cfg_lines) + "\n")
     out = []
-    r = run_tlc(mcname, cfg, wd, workers=workers, timeout=timeout, on_line=lambda t, o: out.append(o) if t == tag else None)
+    r = run_tlc(mcname, cfg, wd, workers=workers if not simulate else 1, timeout=timeout, on_line=lambda t, o: out.append(o) if t == tag else None, simulate=simulate, depth=depth, seed=seed)
     return r, out
 
 
@@ -225,10 +232,25 @@ def check_c17(rep):
         defs = "MC_Need == %s\nMC_Threads == 1..%d\nEmit == AllDone => PrintT(<<\"B\", ToJson([need |-> MC_Need, steps |-> hist])>>)" % (tla_lit(need), len(need))
         cfgl = ["SPECIFICATION Spec", "CONSTANTS", "  Threads <- MC_Threads", "  Need <- MC_Need", "  InitLen = 1", "  Recheck = TRUE",
                 "INVARIANTS UseSeesEnough Progress Emit", "PROPERTIES Monotone Terminates", "CHECK_DEADLOCK FALSE"]
-        r, out = tlc_behaviours("KeyCache", name, wd, defs, cfgl)
+        if len(need) >= 4:
+            # four threads: the interleavings are sampled (TLC simulation mode; safety only), not enumerated
+            cfgl = [l for l in cfgl if not l.startswith("PROPERTIES")]
+            r, out = tlc_behaviours("KeyCache", name, wd, defs, cfgl, simulate=3000, depth=200, seed=rep.seed, timeout=1200)
+            seen_b, uniq = set(), []
+            for o in out:
+                k = json.dumps(o["steps"])
+                if k not in seen_b:
+                    seen_b.add(k)
+                    uniq.append(o)
+            out = uniq
+        else:
+            r, out = tlc_behaviours("KeyCache", name, wd, defs, cfgl)
         if r["violated"]:
             raise ToolError("KeyCache.tla violates %s for %s" % (r["violated"], need))
-        tlc_must_pass(r, name)
+        if len(need) < 4:
+            tlc_must_pass(r, name)
+        elif r["error"] and "violated" in r["error"]:
+            raise ToolError("KeyCache.tla (simulation): %s" % r["error"])
         if not quick and len(out) > 4000:
             random.Random(rep.seed).shuffle(out)
             out = out[:4000]
